@@ -681,6 +681,8 @@ Definition ustep (us : uschema) (e : uev) : ures :=
       match find_type us n with
       | None => URejected
       | Some ty =>
+          (* RENAME TO the same name is an accepted no-op, also on an inherited pointer *)
+          if N.eqb p p' then (if mem_id p (vis_names us (ut_id ty)) then UOk us [] else URejected) else
           match find_ptr (ut_own ty) p with
           | None => URejected
           | Some pt =>
